@@ -584,6 +584,7 @@ class ExprMixin(object):
         vals = []
         conds = []
         saved = (dict(st.dom), set(st.facts), list(st.constraints))
+        npc = len(st.pc)
         result = None
         try:
             for i, e in enumerate(node.values):
@@ -604,9 +605,11 @@ class ExprMixin(object):
                 if i < len(node.values) - 1:
                     try:
                         self.assume(st, c if is_and else mk_not(c))
+                        st.pc.append(c if is_and else mk_not(c))
                     except Dead:
                         break
         finally:
+            del st.pc[npc:]
             st.dom, st.facts, st.constraints = saved
         # value semantics: and -> first falsy else last; or -> first truthy else last.
         # Later operands were evaluated under the assumption that the earlier ones did not
@@ -629,17 +632,24 @@ class ExprMixin(object):
             return self.eval(st, env, node.orelse)
         saved = (dict(st.dom), set(st.facts), list(st.constraints))
         a = b = None
+        # the branch condition is part of the path of whatever the branch raises or records
+        npc = len(st.pc)
         try:
             self.assume(st, c)
+            st.pc.append(c)
             a = self.eval(st, env, node.body)
         except Dead:
             a = None
+        del st.pc[npc:]
         st.dom, st.facts, st.constraints = (dict(saved[0]), set(saved[1]), list(saved[2]))
         try:
-            self.assume(st, mk_not(c))
+            nc = mk_not(c)
+            self.assume(st, nc)
+            st.pc.append(nc)
             b = self.eval(st, env, node.orelse)
         except Dead:
             b = None
+        del st.pc[npc:]
         st.dom, st.facts, st.constraints = saved
         if a is None and b is None:
             raise Dead()
@@ -805,7 +815,7 @@ class ExprMixin(object):
                     return out
                 if isinstance(item, (Opaque, App)):
                     return App("in", (item, Opaque("map%d" % container.id)))
-            if o.kind == "list":
+            if o.kind in ("list", "set"):
                 cs = []
                 for g, v in o.items:
                     cs.append(mk_and([g, self.compare_sym(st, "==", item, v, node, module, False)]))
